@@ -1,5 +1,6 @@
 import CrdtModel.Props.C04
 import CrdtModel.Spec.Lattice
+import CrdtModel.Spec.GListSys
 set_option linter.unusedSectionVars false
 /-!
 # C09 — duplicates and stale states are absorbed; removed data never resurrects
@@ -52,6 +53,11 @@ theorem minreg_duplicate (v0 : α) {U K : List α} {s : MinReg α} (h : (minregS
 theorem lwwreg_duplicate {ν : Type} [DecidableEq ν] (r0 : LWWReg ν α) {U K : List (LWWReg ν α)} {s : LWWReg ν α}
     (wf : UniqueMarkers r0 U) (h : (lwwSys r0).Reach U s K) {op : LWWReg ν α} (hu : op ∈ U) (hk : op ∈ K) :
     s.apply op = s := dup_noop (R := lwwSys r0) wf h hu hk
+theorem glist_duplicate {τ : Type} [LinOrd τ] {U K : List (GListOp τ)} {s : GList τ} (h : glistSys.Reach U s K)
+    {op : GListOp τ} (hu : op ∈ U) (hk : op ∈ K) : s.apply op = s := dup_noop (R := glistSys) trivial h hu hk
+theorem glist_stale {τ : Type} [LinOrd τ] {U K K' : List (GListOp τ)} {s s' : GList τ} (h : glistSys.Reach U s K)
+    (h' : glistSys.Reach U s' K') (sub : ∀ o, o ∈ K' → o ∈ K) : s.merge s' = s :=
+  stale_noop (R := glistSys) trivial h h' sub
 end lattice
 
 end Crdt.C09
